@@ -296,7 +296,11 @@ func vh_token_aware() {
 func vh_token_aware_e2e() {
 	tp := TokenAwareHostPolicy(RoundRobinHostPolicy()).(*tokenAwareHostPolicy)
 	tp.getKeyspaceName = func() string { return "ks" }
+	metaFails := false // the keyspace metadata lookup may start failing (control connection down, unsupported strategy)
 	tp.getKeyspaceMetadata = func(ks string) (*KeyspaceMetadata, error) {
+		if metaFails {
+			return nil, vErrIO
+		}
 		return &KeyspaceMetadata{Name: ks, StrategyClass: "SimpleStrategy", StrategyOptions: map[string]interface{}{"class": "SimpleStrategy", "replication_factor": 2}}, nil
 	}
 	tp.logger = vNopLogger{}
@@ -314,6 +318,7 @@ func vh_token_aware_e2e() {
 	gone := -1
 	if vBool("one_host_removed") {
 		gone = vChoose("gone", 3)
+		metaFails = vBool("metadata_lookup_fails_from_now_on")
 		tp.RemoveHost(hosts[gone])
 	}
 	down := -1
@@ -354,6 +359,11 @@ func vh_token_aware_e2e() {
 	}
 	var want []*HostInfo
 	nrep := 2
+	if metaFails {
+		// no replica map can be computed for the new ring: the owner of the key's range (from the NEW ring) comes
+		// first, a map computed for the previous ring must not be used
+		nrep = 1
+	}
 	if len(members) < nrep {
 		nrep = len(members)
 	}
